@@ -167,7 +167,7 @@ func c06Tier(tier string) (maxLen, exh, random int) {
 		return n
 	}
 	if tier == "thorough" {
-		return 5, cnt(5) * 3, 2000000
+		return 5, cnt(5) * 3, 10000000
 	}
 	return 3, cnt(3) * 3, 400000
 }
